@@ -391,7 +391,8 @@ pub fn clauses() -> Vec<Clause> {
 
 /// Integer matrices (entries in [-9,9], generic or singular by construction)
 /// times a power of two 2^k on the native f32 / f64 types.  Every quantity of
-/// the statement (entries, determinant, inverse) stays in the normal range and
+/// the statement (entries, determinant, inverse) is exactly representable --
+/// the determinant down into the subnormal range -- and
 /// the determinant is known exactly from an i128 Leibniz model, so
 /// "None exactly when the determinant is zero" is decided without tolerance;
 /// the inverse is judged by the double-double residuals of M*N and N*M against
@@ -414,12 +415,22 @@ pub fn native_scaled(cfg: &cgv_core::fw::RunCfg, extra: &mut cgv_core::fw::Extra
         }
         (d, abs)
     }
+    /// exact 2^e as f64, subnormal range included (powi goes through 1/2^|e| and flushes to 0)
+    fn pow2(e: i32) -> f64 {
+        if e >= -1022 {
+            f64::from_bits(((e + 1023) as u64) << 52)
+        } else if e >= -1074 {
+            f64::from_bits(1u64 << (e + 1074))
+        } else {
+            0.0
+        }
+    }
     fn run<T: BaseFloat>(tag: &str, mi: &[[i128; 4]; 4], n: usize, k: i32, eps: f64, acc: &mut Acc, inputs: &dyn Fn() -> serde_json::Value) {
-        let sc = (2.0f64).powi(k);
+        let sc = pow2(k);
         let f = |x: i128| T::from(x as f64 * sc).unwrap();
         let g = |x: T| x.to_f64().unwrap();
         let (d, dabs) = idet(mi, n);
-        let want_det = d as f64 * (2.0f64).powi(k * n as i32);
+        let want_det = d as f64 * pow2(k * n as i32);
         let (det, inv): (f64, Option<Vec<Vec<f64>>>) = match n {
             2 => {
                 let m = Matrix2::new(f(mi[0][0]), f(mi[0][1]), f(mi[1][0]), f(mi[1][1]));
@@ -443,7 +454,7 @@ pub fn native_scaled(cfg: &cgv_core::fw::RunCfg, extra: &mut cgv_core::fw::Extra
             &format!("{tag} {n}x{n} determinant of (integer matrix)*2^{k}"),
             det,
             want_det,
-            64.0 * eps * dabs as f64 * (2.0f64).powi(k * n as i32),
+            64.0 * eps * dabs as f64 * pow2(k * n as i32),
             inputs,
         );
         acc.truth(
@@ -496,9 +507,15 @@ pub fn native_scaled(cfg: &cgv_core::fw::RunCfg, extra: &mut cgv_core::fw::Extra
                 }
             }
         }
-        // per-type scale windows: entries, determinant, cofactors and inverse all normal
-        let k64 = rng.range(-200, 200) as i32;
-        let k32 = rng.range(-24, 24) as i32;
+        // per-type scale windows: upwards as far as the determinant and the cofactors stay finite,
+        // downwards as far as the determinant d*2^(n k) is still *exactly* representable, i.e. well
+        // into the subnormal range ("tiny but non-zero" determinants: every operation on these
+        // power-of-two multiples of small integers is exact there, so reduced precision cannot
+        // blur the verdict).  One case in three is drawn from the lowest tenth of the window.
+        let (lo64, lo32) = (-(1070 / n as i64), -(148 / n as i64));
+        let low = rng.chance(1, 3);
+        let k64 = if low { rng.range(lo64, lo64 + 25) } else { rng.range(lo64, 200) } as i32;
+        let k32 = if low { rng.range(lo32, lo32 + 6) } else { rng.range(lo32, 24) } as i32;
         acc.case(if singular { "singular by construction" } else { "generic" });
         let mm: Vec<Vec<i64>> = (0..n).map(|c| (0..n).map(|r| m[c][r] as i64).collect()).collect();
         let in64 = || json!({"n": n, "integer_matrix_columns": mm, "scale_log2": k64, "type": "f64", "index": i});
